@@ -47,9 +47,9 @@ theorem sweepAux_complete (P : Rat → Bool) (hP : UpClosed P) (suf : List Row) 
       intro x hx
       simp only [List.mem_singleton] at hx
       subst hx
-      simp [Thr.below, hPr]
+      simp [Thr.below, hPr, src_thrSentinel]
     | cons r' rest' =>
-      simp only
+      simp only [src_midThreshold]
       have hs' : DescSorted (r' :: rest') := (List.pairwise_cons.mp hs).2
       have hrr' : r'.score ≤ r.score := (List.pairwise_cons.mp hs).1 r' (by simp)
       have hrest : ∀ x ∈ r' :: rest', x.score ≤ r'.score := by
